@@ -1010,10 +1010,18 @@ def where(c, a, b):
     return r
 
 
+def _isinf(x):
+    return type(x) is float and math.isinf(x)
+
+
 def minimum(a, b):
     a, b = _dg(a), _dg(b)
     if not _is_sym(a) and not _is_sym(b):
         return min(a, b)
+    # +-inf as a neutral / absorbing element (the masked_fill(mask, inf).amin() idiom)
+    for u, v in ((a, b), (b, a)):
+        if _isinf(u):
+            return v if u > 0 else u
     return where(le(a, b), a, b)
 
 
@@ -1021,6 +1029,9 @@ def maximum(a, b):
     a, b = _dg(a), _dg(b)
     if not _is_sym(a) and not _is_sym(b):
         return max(a, b)
+    for u, v in ((a, b), (b, a)):
+        if _isinf(u):
+            return v if u < 0 else u
     return where(ge(a, b), a, b)
 
 
